@@ -12,7 +12,8 @@ ERR_TYPES = ("epserde::deser::Error", "epserde::ser::Error", "std::io::error::Er
 RESULT = "core::result::Result"
 
 PASS_THROUGH = {"map_err", "map", "and_then", "or_else", "context", "with_context", "inspect_err", "branch", "from_residual", "into", "from"}
-SWALLOW = {"ok", "is_ok", "is_err", "err", "unwrap_or", "unwrap_or_default", "unwrap_or_else", "iter", "is_ok_and", "is_err_and", "unwrap_unchecked", "map_or", "map_or_else"}
+SWALLOW = {"ok", "is_ok", "is_err", "err", "unwrap_or", "unwrap_or_default", "unwrap_or_else", "iter", "is_ok_and", "is_err_and", "unwrap_unchecked", "map_or", "map_or_else",
+           "drop", "forget", "black_box"}
 PANICKY = {"unwrap", "expect"}
 
 
@@ -234,3 +235,112 @@ def rule_who_constructs(u, rep, adt, variant, allowed, rule, crate="epserde"):
                     rep.add(rule, "%s:%s" % (variant, b.n), "`%s::%s` is constructed in `%s`, outside the functions that own this error" % (adt.split("::")[-1], variant, b.n), b.crate.span(e["sp"]))
     rep.count("construction_sites_" + variant, sites)
     return sites
+
+
+# ---------------------------------------------------------------------- ERR-DROP (MIR)
+def _mentions_local(j, L):
+    """a place with base local L occurs as an operand / borrowed place / discriminant source inside j"""
+    if isinstance(j, dict):
+        if j.get("l") == L and "p" in j:
+            return True
+        return any(_mentions_local(v, L) for v in j.values())
+    if isinstance(j, list):
+        return any(_mentions_local(v, L) for v in j)
+    return False
+
+
+def _succs(t):
+    k = t.get("k")
+    out = []
+    if "target" in t:
+        out.append(t["target"])
+    if k == "SwitchInt":
+        out += [x[1] for x in t["targets"]] + [t["otherwise"]]
+    return out
+
+
+def rule_err_drop(u, rep, scope_files, crate="epserde", rule="ERR-DROP"):
+    """Post-drop-elaboration MIR: no value of type Result<_, E> (E one of the crate's error types) that was produced by a
+    call or assignment reaches a Drop of its local (scope end or overwrite) on a normal path without having been read
+    (moved, matched, borrowed) in between: a Result that is dropped is an error that nobody saw."""
+    nb = nl = 0
+    for b in u.bodies.values():
+        if b.mir is None or b.d.get("krate") != crate or not in_scope(b, scope_files):
+            continue
+        m = b.mir
+        locs = m["locals"]
+        res_locals = [i for i, l in enumerate(locs) if is_err_result(b.crate.ty(l["ty"]))]
+        nb += 1
+        if not res_locals:
+            continue
+        blocks = m["blocks"]
+        preds = {}
+        for bi, blk in enumerate(blocks):
+            if blk.get("cleanup"):
+                continue
+            for s in _succs(blk["term"]):
+                preds.setdefault(s, []).append(bi)
+        for L in res_locals:
+            nl += 1
+            for bi, blk in enumerate(blocks):
+                t = blk["term"]
+                if blk.get("cleanup") or t.get("k") != "Drop" or t["place"].get("l") != L or t["place"].get("p"):
+                    continue
+                # backward search for a definition that reaches this drop unread
+                bad = None
+                seen = set()
+                work = [(bi, len(blk["stmts"]))]
+                while work and bad is None:
+                    cb, upto = work.pop()
+                    stmts = blocks[cb]["stmts"]
+                    stop = False
+                    for si in range(upto - 1, -1, -1):
+                        st = stmts[si]
+                        if st.get("k") != "Assign":
+                            continue
+                        if _mentions_local(st.get("rv"), L):
+                            stop = True      # read
+                            break
+                        pl = st["place"]
+                        if pl.get("l") == L:
+                            if not pl.get("p"):
+                                rv = st["rv"]
+                                # a literal Ok(..) carries no error: not a definition of interest
+                                if not (rv.get("k") == "Aggregate" and rv.get("vname") == "Ok"):
+                                    bad = b.crate.span(st["sp"])
+                                stop = True
+                                break
+                    if stop or bad:
+                        continue
+                    for pb in preds.get(cb, []):
+                        if pb in seen:
+                            continue
+                        seen.add(pb)
+                        pt = blocks[pb]["term"]
+                        k = pt.get("k")
+                        if k == "Call":
+                            d = pt.get("dest", {})
+                            if d.get("l") == L and not d.get("p"):
+                                bad = b.crate.span(pt["sp"])
+                                break
+                            if _mentions_local(pt.get("args"), L):
+                                continue
+                        elif k == "Drop":
+                            if pt["place"].get("l") == L:
+                                continue
+                        elif k == "SwitchInt":
+                            if _mentions_local(pt.get("discr"), L):
+                                continue
+                        work.append((pb, len(blocks[pb]["stmts"])))
+                rep.oblige(bad is None)
+                if bad is not None:
+                    nm = None
+                    for n_ in m.get("names", []):
+                        if n_["place"].get("l") == L and not n_["place"].get("p"):
+                            nm = n_["name"]
+                    rep.add(rule, "%s:%s" % (b.n, nm or "temporary"),
+                            "in `%s` a Result (%s, produced at %s) is dropped without having been propagated or inspected: the error it may hold is lost"
+                            % (b.n, "variable `%s`" % nm if nm else "a temporary", bad), b.crate.span(t["sp"]))
+    rep.count("mir_bodies_scanned_" + rule, nb)
+    rep.count("result_locals_tracked_" + rule, nl)
+    return nl
